@@ -123,7 +123,7 @@ let sem_apply ((h, c) : metric * metric) (op : string list) : (metric * metric) 
   | [o; n; s] ->
     let w = { mnum = n_of_tok n; msize = n_of_tok s } in
     (match o with
-     | "TryAcquire" | "Acquire0" | "AcquireB" -> (match sem_try h c w with Some h' -> ((h', c), "1") | None -> ((h, c), "0"))
+     | "TryAcquire" | "Acquire0" | "AcquireB" | "AcquireZ" | "AcquireH" -> (match sem_try h c w with Some h' -> ((h', c), "1") | None -> ((h, c), "0"))
      | "Release" -> ((sem_release h c w, c), "ok")
      | "Processing" -> ((h, c), num h.mnum ^ "," ^ num h.msize)
      | "Available" ->
@@ -161,7 +161,7 @@ let fl_apply (st : fstate) (op : string list) : fstate * string =
   | ["SizeEst"] -> (match run FSizeEst with (st', FRNum x) -> (st', num x) | (st', _) -> (st', "?"))
   | ["Snap"] -> (match run FSnap with (st', FRContent l) -> (st', content_s l) | (st', _) -> (st', "?"))
   | "Batch" :: r -> ok (FBatch (batch_wops r))
-  | ["Stat"] -> ok FStat
+  | ["Stat"] | ["MidFlush"; _] -> ok FStat   (* the flush of a lower layer of a stacked store is invisible from the top *)
   | ["Compact"] -> ok FCompact
   | ["InitDb"] -> ok FInitDb
   | _ -> (st, "?")
@@ -238,22 +238,39 @@ let buf_apply (d : bdag) (st : st) (op : string list) : st * string =
 let rec after_h = function [] -> [] | "H" :: r -> r | _ :: r -> after_h r
 
 (* Some b = verdict of the search against the extracted model; None = component without one here *)
+(* the configuration variant of the run, printed by the harness: cfg=<...> *)
+let cfg_of obs = find_prefix "cfg=" obs
+let cfg_num (c : string) (key : string) : string =     (* "w9.s0.cb1" "w" -> "9" *)
+  List.fold_left (fun acc part ->
+    let lk = String.length key in
+    if acc = "" && String.length part > lk && String.sub part 0 lk = key
+       && (match part.[lk] with '0'..'9' -> true | _ -> false)
+    then String.sub part lk (String.length part - lk) else acc) "" (split_char '.' c)
+let contains_sub (s : string) (sub : string) : bool =
+  let n = String.length s and m = String.length sub in
+  let rec go i = i + m <= n && (String.sub s i m = sub || go (i + 1)) in go 0
+
 let extracted_lin (inp : string list) (obs : string list) : bool option =
+  let cfg = cfg_of obs in
   match inp with
-  | ["LIN"; "wlru"; seed; _; _] ->
-    let sd = ZA.of_string seed in
-    let mw = ZA.add (ZA.of_int 6) (ZA.erem sd (ZA.of_int 5)) and ms = ZA.add (ZA.of_int 2) (ZA.erem sd (ZA.of_int 3)) in
+  | ["LIN"; "wlru"; _; _; _] when cfg_num cfg "w" <> "" ->
+    let mw = ZA.of_string (cfg_num cfg "w") and ms = ZA.of_string (cfg_num cfg "s") in
     (match lru_new (n_of_z mw) (z_of_zz ms) with
      | Some c0 -> Some (linearizable lru_apply c0 (parse_history (after_h obs)))
      | None -> None)
-  | ["LIN"; "sem"; _; _; _] ->
-    let m a b = { mnum = n_of_z (ZA.of_int a); msize = n_of_z (ZA.of_int b) } in
-    Some (linearizable sem_apply (m 0 0, m 5 50) (parse_history (after_h obs)))
+  | ["LIN"; "sem"; _; _; _] when cfg_num cfg "n" <> "" ->
+    let m a b = { mnum = n_of_tok a; msize = n_of_tok b } in
+    Some (linearizable sem_apply (m "0" "0", m (cfg_num cfg "n") (cfg_num cfg "s")) (parse_history (after_h obs)))
+  | ["LIN"; ("flushable" | "lazy"); _; _; _] when contains_sub cfg "closing" ->
+    None   (* the run closes the store: use-after-Close results (errClosed / panic) are judged by the harness's reference only *)
   | ["LIN"; ("flushable" | "lazy"); _; _; _] | ["SNAPMID"] ->
     Some (linearizable fl_apply f_init (parse_history (after_h obs)))
   | ["LIN"; "pool"; _; _; _] ->
-    Some (linearizable pl_apply pool_start (parse_history (after_h obs)))
-  | ["POOLMID"] ->
+    (* stores opened before the run: cfg=stores:a.b.e *)
+    let names = if contains_sub cfg "stores:" then split_char '.' (String.sub cfg 7 (String.length cfg - 7)) else ["a"; "b"] in
+    let st0 = List.fold_left (fun st d -> fst (pl_step flag_key (fst (pl_step flag_key st (POpen (nm d)))) (PUnder (nm d)))) p_init names in
+    Some (linearizable pl_apply st0 (parse_history (after_h obs)))
+  | ["POOLMID"] | ["POOLRD"] ->
     let st3 = List.fold_left (fun st o -> fst (pl_step flag_key st o)) pool_start [POpen (nm "c"); PUnder (nm "c")] in
     Some (linearizable pl_apply st3 (parse_history (after_h obs)))
   | ["LIN"; "buffer"; _; _; _] | ["EBMID"] ->
@@ -278,7 +295,7 @@ let eval inp obs =
   | _ when has_tok "skipped=1" obs ->
     { default_verdict with model_obs = obs; indeterminate = true; nontrivial = false;
       note = "not run: the component hung or crashed three times earlier in this run" }
-  | kind :: _ when kind = "LIN" || kind = "STRESS" || kind = "EBMID" || kind = "SNAPMID" || kind = "POOLMID" ->
+  | kind :: _ when kind = "LIN" || kind = "STRESS" || kind = "EBMID" || kind = "SNAPMID" || kind = "POOLMID" || kind = "POOLRD" ->
     let race = not (has_tok "race=0" obs) in
     let crash = has_tok "crash=1" obs || has_tok "hang=1" obs in
     let wants_lin = kind <> "STRESS" in
